@@ -14,7 +14,7 @@ LINES = [1, 2, 3, 4, 5, 6, 10, 24]
 def decode(data, sid):
     if len(data) < 2 or len(data) > 4096:
         return None
-    cols = COLS[data[0] & 15] if data[0] < 128 else 1 + (data[0] - 128)
+    cols = COLS[data[0] & 15] if data[0] < 128 else 1 + (data[0] - 128) % 40
     lines = LINES[data[1] & 7] if data[1] < 128 else 1 + (data[1] - 128) % 40
     d = data[2:]
     out = [f"new {cols} {lines} b {sid}"]
@@ -39,7 +39,7 @@ def decode(data, sid):
             i += 2
         elif nx == 0x01 and i + 3 < len(d):
             flush()
-            out.append("api resize %d %d" % (1 + d[i + 2] % 40, 1 + d[i + 3] % 140))
+            out.append("api resize %d %d" % (1 + d[i + 2] % 40, (1 + d[i + 3] % 24) if d[i + 3] < 200 else COLS[(d[i + 3] - 200) & 15]))
             i += 4
         elif nx == 0x02:
             flush()
